@@ -241,6 +241,17 @@ impl<TC: Configuration> Forge<TC> {
         }
     }
 
+    /// A membership "proof" for `l` with the leaf hash `hash`, whether or not such a node exists: the real
+    /// proof when (l, hash) is a real node, otherwise the Merkle path of the deepest matching node with
+    /// label and hash replaced.  Internally consistent with what the prover claims, inconsistent with the
+    /// tree: only the recomputation of the root can reject it.
+    pub fn membership_forced(&self, l: &NodeLabel, hash: AzksValue) -> MembershipProof {
+        let mut p = self.membership_or_nearest(l);
+        p.label = *l;
+        p.hash_val = hash;
+        p
+    }
+
     /// A lookup proof claiming (version, value, epoch) for `label`, with the freshness
     /// (non-membership of the stale label) anchored at `anchor` (None = deepest matching node).
     pub async fn lookup_proof(&self, label: &[u8], version: u64, value: &[u8], epoch: u64, anchor: Option<NodeLabel>) -> Option<LookupProof> {
